@@ -487,6 +487,49 @@ def spaces(tier, variant, seed):
 
     sp.append(Space("mpf_set_str", list(PRECS), st_cases, st_one, "mpf_set_str on %d strings (bases 2,10,16,36,62,-10,-16; point, exponent forms)" % len(STRS)))
 
+    # systematic mantissa length x point position x exponent grid (mantissas longer than the destination holds, on both sides of every limb count)
+    SB = {10: "0123456789", 16: "0123456789abcdef", 2: "01", 36: "0123456789abcdefghijklmnopqrstuvwxyz", 7: "0123456"}
+    MLEN = [1, 2, 9, 19, 20, 21, 38, 39, 40, 57, 58, 59, 60, 77, 78, 80, 100, 130, 200]
+    EXPS = [None, 0, 1, 2, 5, 19, 20, 30, 64, 100, -1, -2, -5, -20, -30, -64, -100]
+
+    def sg_cases(blk):
+        p, base = blk
+        for ml in MLEN:
+            for pp in [None] + sorted({0, 1, ml // 2, max(ml - 1, 0), ml}):
+                for ex in EXPS:
+                    for pat in (0, 1, 2):
+                        yield (p, base, ml, pp, ex, pat)
+
+    def sg_one(case, R):
+        p, base, ml, pp, ex, pat = case
+        e = env()
+        dg = SB[base]
+        if pat == 0:
+            ds = [dg[-1]] * ml
+        elif pat == 1:
+            ds = [dg[1]] + [dg[0]] * (ml - 2) + ([dg[1]] if ml > 1 else [])
+        else:
+            ds = [dg[1 + (i * 7 + 3) % (len(dg) - 1)] for i in range(ml)]
+        mant = "".join(ds)
+        if pp is not None:
+            mant = mant[:pp] + "." + mant[pp:]
+        s_ = ("-" if (ml + (ex or 0)) % 3 == 0 else "") + mant
+        if ex is not None:
+            # the exponent is written in decimal and read in decimal: negative base argument
+            s_ += "@" + str(ex)
+        r = e["dst"][p]
+        r.set_raw(5, 2, False)
+        rc = f_set_str(r.p, s_.encode(), -base)
+        if rc != 0:
+            R.fail("mpf_set_str", "%r base %d rejected" % (s_[:60], -base))
+            return None
+        val = str_value(s_, -base)
+        cls = check(R, "mpf_set_str", r, val, f_get_prec(r.p), True, "set_str(%r..., %d) mantissa %d digits point %s exp %s" % (s_[:24], -base, ml, pp, ex))
+        return (p, base, ml, pp is None, ex is None or 0 if ex is None else (ex > 0) - (ex < 0), cls)
+
+    sp.append(Space("mpf_set_str_grid", [(p, b) for p in PRECS for b in (10, 16, 2, 36, 7)], sg_cases, sg_one,
+                    "mpf_set_str: mantissa length %s x point position x exponent %s x 3 digit patterns x bases 10,16,2,36,7 (exponent in decimal)" % (MLEN, EXPS)))
+
     # ---------------- mpf_get_str ----------------
     def gs_cases(blk):
         p, na = blk
